@@ -5,4 +5,7 @@ EXTENDS MC_RegionName, Json, SequencesExt
 Sorted == SortSeq(SetToSeq(All), LAMBDA a, b : TupleCmp(a, b) < 0)
 ASSUME ndJsonSerialize("c16_sorted.ndjson", Sorted)
 ASSUME PrintT(<<"@@N", Cardinality(All)>>)
+(* the search keys of the scope as the client must build them (createRegionSearchKey): table , key , ':' *)
+ASSUME ndJsonSerialize("c16_searchkeys.ndjson",
+         SetToSeq({[table |-> t, key |-> k, bytes |-> Flat(SearchName(t, k))] : t \in Tables, k \in Keys}))
 =============================================================================
